@@ -182,6 +182,12 @@ class _Rename(ast.NodeTransformer):
         self.mapping, self.subst, self.lams = mapping, subst, lams or {}
 
     def visit_Call(self, n):
+        # a parameter bound to functools.partial(F, a.., k=v..) and only ever called: p(x, y) is F(a.., x, y, k=v..)
+        if isinstance(n.func, ast.Name) and n.func.id in self.lams and isinstance(self.lams[n.func.id], ast.Call):
+            part = self.lams[n.func.id]
+            args = [self.visit(a) for a in n.args]
+            return ast.copy_location(ast.Call(func=copy.deepcopy(part.args[0]), args=[copy.deepcopy(a) for a in part.args[1:]] + args,
+                                              keywords=[copy.deepcopy(k) for k in part.keywords]), n)
         # a parameter bound to a lambda of the caller and only ever called: the call is the lambda's body
         if isinstance(n.func, ast.Name) and n.func.id in self.lams:
             lam = self.lams[n.func.id]
@@ -257,6 +263,9 @@ def _bind(fn, kind, call, recv):
         if p not in stored and isinstance(a, ast.Lambda) and _beta_ok(fn, p, a):
             lams[p] = a
             continue
+        if p not in stored and _partial_ok(fn, p, a):
+            lams[p] = a
+            continue
         if p not in stored and _simple_arg(a):
             subst[p] = a
         else:
@@ -266,6 +275,27 @@ def _bind(fn, kind, call, recv):
         if v not in mapping and v not in bound:
             mapping[v] = tag + v
     return prelude, mapping, subst, lams
+
+
+def _partial_ok(fn, p, a):
+    """a is functools.partial(F, simple args.., k=simple..) and parameter p is only ever called positionally"""
+    if not (isinstance(a, ast.Call) and (isinstance(a.func, ast.Name) and a.func.id == "partial"
+                                         or isinstance(a.func, ast.Attribute) and a.func.attr == "partial" and isinstance(a.func.value, ast.Name) and a.func.value.id == "functools")):
+        return False
+    if not a.args or any(isinstance(x, ast.Starred) for x in a.args) or any(k.arg is None for k in a.keywords):
+        return False
+    if not all(_simple_arg(x) for x in list(a.args) + [k.value for k in a.keywords]):
+        return False
+    callee_ids = set()
+    for c in ast.walk(fn):
+        if isinstance(c, ast.Call) and isinstance(c.func, ast.Name) and c.func.id == p:
+            if c.keywords or any(isinstance(x, ast.Starred) for x in c.args):
+                return False
+            callee_ids.add(id(c.func))
+    for x in ast.walk(fn):
+        if isinstance(x, ast.Name) and x.id == p and id(x) not in callee_ids:
+            return False
+    return bool(callee_ids)
 
 
 def _beta_ok(fn, p, lam):
@@ -587,6 +617,26 @@ class Inliner:
                 STATS["inlined_calls"] += 1
                 STATS["helpers"].add(fn.name)
                 return out
+
+            def visit_Attribute(self, n):
+                self.generic_visit(n)
+                # self.<new property> with a single-return body: the returned expression
+                if isinstance(n.ctx, ast.Load) and isinstance(n.value, ast.Name) and n.value.id in self_names and cls_name is not None:
+                    cands = [fn for cn, fn in me.cls_funcs.get(n.attr, []) if cn == cls_name]
+                    if len(cands) == 1 and "%s.%s" % (cls_name, n.attr) not in me.known \
+                            and any(isinstance(d, ast.Name) and d.id == "property" for d in cands[0].decorator_list) and len(cands[0].args.args) == 1:
+                        fn = cands[0]
+                        body = [s for s in fn.body if not (isinstance(s, ast.Expr) and isinstance(s.value, ast.Constant))]
+                        if len(body) == 1 and isinstance(body[0], ast.Return) and body[0].value is not None and _eligible(fn):
+                            out = _Rename({}, {fn.args.args[0].arg: n.value}).visit(copy.deepcopy(body[0].value))
+                            ast.copy_location(out, n)
+                            for x in ast.walk(out):
+                                if isinstance(x, ast.expr) and not hasattr(x, "lineno"):
+                                    ast.copy_location(x, n)
+                            STATS["inlined_calls"] += 1
+                            STATS["helpers"].add(fn.name)
+                            return out
+                return n
 
             def visit_Lambda(self, n):
                 return n
